@@ -154,7 +154,7 @@ def check_config(ctx, rep, cfg):
     rep.floor("sealed-box openers" + tag, len(sealers), 2)
     for f in sealers:
         seal_nonce(rep, prog, views.get(f.key, f), results, tag)
-        faithful_copies(rep, prog, f, results, tag)
+        faithful_copies(rep, prog, views.get(f.key, f), results, tag)
     # every accepted comparison has operands of equal static width (a slice ct_eq of unequal
     # lengths is constantly false; on the accept side that only rejects, but it signals a wrong operand)
     for f in roots:
